@@ -386,6 +386,10 @@ def d5(ctx, rep):
                     types = ctx.cg.expr_classes(fn, t.value)
                     if types and all(not isinstance(c, str) and c.name == 'Edge' for c in types):
                         continue
+                    if not types and not (isinstance(t.value, ast.Name) and t.value.id == fn.self_name):
+                        n += 1
+                        rep.undecided('D5.writers', fn, s, f'the class of `{short(t.value, 30)}` is not derived: whether this store writes a copula is not decided')
+                        continue
                     n += 1
                     v = s.value
                     where = fn.short
@@ -396,6 +400,20 @@ def d5(ctx, rep):
                     else:
                         ok = (fn.name == 'fit' and fn.cls is not None and fn.cls.qualname == BIV) or (fn.qualname in fit_helpers and fn.name != '_compute_theta') \
                             or (fn.name == 'from_dict' and isinstance(v, ast.Subscript)) or _is_copy_of(fn, v, 'tau')
+                    if not ok and isinstance(v, ast.Name) and v.id in fn.params and fn.cls is None:
+                        # a module-level constructor helper: the stored value is its parameter; look at what the callers pass
+                        idx = fn.params.index(v.id)
+                        passed = []
+                        for g in prog.functions.values():
+                            for c in walk_no_nested(g.node):
+                                if isinstance(c, ast.Call) and prog.resolve(g.module, c.func) == fn.qualname:
+                                    a = c.args[idx] if idx < len(c.args) else kwarg(c, v.id)
+                                    passed.append(a is not None and _is_copy_of(g, a, t.attr))
+                        if passed and all(passed):
+                            rep.ok('D5.writers', fn, s, f'{t.attr} receives a copy of an already validated {t.attr} at every call site of {fn.name}')
+                        else:
+                            rep.undecided('D5.writers', fn, s, f'{where} stores its parameter into {t.attr}: what the callers pass is not derived')
+                        continue
                     rep.check('D5.writers', fn, s, ok, f'{t.attr} written by an allowed writer',
                               f'{where} writes {t.attr} directly: the value bypasses calibration/validation')
     rep.floor('D5.writers', 'stores into theta/tau of a copula', n, 6)
